@@ -352,6 +352,17 @@ theorem find?_key_of_mem {β : Type} : ∀ (d : List (Text × β)), (d.map (·.1
       simp only [List.find?_cons, hne]
       exact find?_key_of_mem rest hnd.2 hm p hp
 
+/-- the attribute holding the explicit value of `n`: `"_" + n` - what `__get__` reads, `__set__` writes and `__delete__`
+removes according to the generated description -/
+def slotOf (n : Text) : Text := '_' :: n
+
+@[simp] theorem getSlot_src (n : Text) : src.getSlot ++ n = slotOf n := rfl
+@[simp] theorem setSlot_src (n : Text) : src.setSlot ++ n = slotOf n := rfl
+@[simp] theorem delSlot_src (n : Text) : src.delSlot ++ n = slotOf n := rfl
+@[simp] theorem slotKey_src (c : Nat) (n : Text) : slotKey src c n = (c, slotOf n) := rfl
+
+theorem slotOf_inj {a b : Text} (h : slotOf a = slotOf b) : a = b := by simpa [slotOf] using h
+
 /-- the value the loop of `update` leaves in slot `k` (most recent entry wins; the loop stops at the first unknown name) -/
 def updWrite (D : List CV) (c : Nat) (k : Key) : List (Text × V) → Option V
   | [] => none
@@ -359,7 +370,7 @@ def updWrite (D : List CV) (c : Nat) (k : Key) : List (Text × V) → Option V
     if known D c n then
       match updWrite D c k rest with
       | some w => some w
-      | none => if (c, n) = k then some v else none
+      | none => if (c, slotOf n) = k then some v else none
     else none
 
 theorem updateLoop_explicit (D : List CV) (c : Nat) (k : Key) : ∀ (d : List (Text × V)) (e : Key → Option V),
@@ -373,18 +384,18 @@ theorem updateLoop_explicit (D : List CV) (c : Nat) (k : Key) : ∀ (d : List (T
       cases updWrite D c k rest with
       | some w => rfl
       | none =>
-        by_cases he : (c, n) = k
-        · simp [setKey, he]
-        · have : k ≠ (c, n) := fun e => he e.symm
-          simp [setKey, he, this]
+        by_cases he : (c, slotOf n) = k
+        · simp [cvSet, setKey, he]
+        · have : k ≠ (c, slotOf n) := fun e => he e.symm
+          simp [cvSet, setKey, he, this]
     · simp only [hk]
       have : src.updateRaises = true := rfl
       simp [this]
 
 /-- what one operation writes into the explicit slot `k`: `none` = does not touch it, `some none` = leaves it absent -/
 def writeOf (D : List CV) (k : Key) : Op → Option (Option V)
-  | .assign c n v => if (c, n) = k ∧ known D c n = true then some (some v) else none
-  | .delete c n => if (c, n) = k then some none else none
+  | .assign c n v => if (c, slotOf n) = k ∧ known D c n = true then some (some v) else none
+  | .delete c n => if (c, slotOf n) = k then some none else none
   | .update c d => (updWrite D c k d).map some
   | _ => none
 
@@ -395,18 +406,18 @@ theorem step_explicit (D : List CV) (s : State) (op : Op) (k : Key) :
   | assign c n v =>
     simp only [step, writeOf]
     by_cases hk : known D c n = true
-    · by_cases he : (c, n) = k
-      · simp [hk, he, setKey]
-      · have : k ≠ (c, n) := fun e => he e.symm
-        simp [hk, he, setKey, this]
+    · by_cases he : (c, slotOf n) = k
+      · simp [hk, he, cvSet, setKey]
+      · have : k ≠ (c, slotOf n) := fun e => he e.symm
+        simp [hk, he, cvSet, setKey, this]
     · simp [hk]
   | delete c n =>
-    simp only [step, writeOf]
-    by_cases he : (c, n) = k
+    simp only [step, writeOf, cvDelete, delSlot_src]
+    by_cases he : (c, slotOf n) = k
     · subst he
-      cases hx : s.explicit (c, n) <;> simp [hx, setKey]
-    · have : k ≠ (c, n) := fun e => he e.symm
-      cases hx : s.explicit (c, n) <;> simp [he, setKey, this]
+      cases hx : s.explicit (c, slotOf n) <;> simp [setKey, hx]
+    · have : k ≠ (c, slotOf n) := fun e => he e.symm
+      cases hx : s.explicit (c, slotOf n) <;> simp [he, setKey, this]
   | setenv x t => simp [step, writeOf]
   | unsetenv x => simp [step, writeOf]
   | update c d =>
@@ -447,7 +458,8 @@ theorem step_env (D : List CV) (s : State) (op : Op) (x : Text) :
   unfold pick
   cases op with
   | assign c n v => simp only [step, envWriteOf]; split <;> rfl
-  | delete c n => simp only [step, envWriteOf]; split <;> rfl
+  | delete c n =>
+    simp only [step, envWriteOf, cvDelete]
   | setenv y t =>
     simp only [step, envWriteOf, setVar]
     by_cases he : y = x
@@ -482,49 +494,105 @@ theorem env_run (D : List CV) (x : Text) (h : List Op) (s : State) :
     (run src D s h).env x = pick (lastEnvWrite x h.reverse) (s.env x) := by
   simpa using env_run_rev D x h.reverse s
 
-/-! ### which branch of `parse` a declared value takes (source order of the generated description) -/
+/-! ### which branch of `parse` a declared value takes (source order and tests of the generated description) -/
 
 theorem parse_custom (P : Parsers) (cv : CV) (t : Text) {i : Nat} (hp : cv.parser = some i) :
     parse src P cv t = P i t := by
-  simp [parse, src, Gen.C20.parseOrder, parseBranches, Ty.passes, hp, runBranch]
+  simp [parse, src, Gen.C20.parseTests, parseBranches, Ty.passes, hp, runBranch]
 
 theorem parse_bool (P : Parsers) (cv : CV) (t : Text) (hty : cv.ty = .bool) (hp : cv.parser = none) :
     parse src P cv t = parseBool src.boolElse t src.boolTests := by
-  simp [parse, src, Gen.C20.parseOrder, parseBranches, Ty.passes, hp, hty, runBranch]
+  simp [parse, src, Gen.C20.parseTests, parseBranches, Ty.passes, Ty.exact, hp, hty, runBranch]
 
 theorem parse_str (P : Parsers) (cv : CV) (t : Text) (hty : cv.ty = .str) (hp : cv.parser = none) :
     parse src P cv t = .ok (.str t) := by
-  simp [parse, src, Gen.C20.parseOrder, parseBranches, Ty.passes, hp, hty, runBranch]
+  simp [parse, src, Gen.C20.parseTests, parseBranches, Ty.passes, Ty.exact, hp, hty, runBranch]
 
 theorem parse_path (P : Parsers) (cv : CV) (t : Text) (hty : cv.ty = .path) (hp : cv.parser = none) :
     parse src P cv t = .ok (.path t) := by
-  simp [parse, src, Gen.C20.parseOrder, parseBranches, Ty.passes, hp, hty, runBranch]
+  simp [parse, src, Gen.C20.parseTests, parseBranches, Ty.passes, Ty.exact, Ty.supers, hp, hty, construct, constructRoot,
+    Ty.root, Ty.wrap, Except.map]
 
-theorem parse_enum (P : Parsers) (cv : CV) (t : Text) {ms : List (Text × Int)} (hty : cv.ty = .enum ms)
-    (hp : cv.parser = none) : parse src P cv t = enumChain ms t src.enumLookups := by
-  simp [parse, src, Gen.C20.parseOrder, parseBranches, Ty.passes, hp, hty, runBranch]
+/-- every enum class, whatever data type it mixes in, takes the enum branch -/
+theorem parse_enum (P : Parsers) (cv : CV) (t : Text) {mix : Mix} {ms : List (Text × Int)} (hty : cv.ty = .enum mix ms)
+    (hp : cv.parser = none) : parse src P cv t = enumChain mix ms t src.enumLookups := by
+  cases mix <;> simp [parse, src, Gen.C20.parseTests, parseBranches, Ty.passes, Ty.exact, Ty.supers, hp, hty, runBranch]
 
 theorem parse_dict (P : Parsers) (cv : CV) (t : Text) (hty : cv.ty = .dict) (hp : cv.parser = none) :
     parse src P cv t = dictOf [] ((split src.mapSep t).map fun p =>
       (split src.mapKvSep (applyOps src.mapPairNorm p)).map (applyOps src.mapPartNorm)) := by
-  simp [parse, src, Gen.C20.parseOrder, parseBranches, Ty.passes, hp, hty, runBranch]
+  simp only [parse, src, Gen.C20.parseTests, parseBranches, Ty.passes, Ty.exact, Ty.supers, hp, hty, runBranch, Ty.root]
+  simp only [Option.isSome_none, List.contains_cons, List.contains_nil]
+  simp [Except.map]
+  cases dictOf [] _ <;> rfl
 
 theorem parse_list (P : Parsers) (cv : CV) (t : Text) (hty : cv.ty = .list) (hp : cv.parser = none) :
     parse src P cv t = .ok (.list ((split src.listSep t).map (applyOps src.listItemNorm))) := by
-  simp [parse, src, Gen.C20.parseOrder, parseBranches, Ty.passes, hp, hty, runBranch]
+  simp [parse, src, Gen.C20.parseTests, parseBranches, Ty.passes, Ty.exact, Ty.supers, hp, hty, runBranch, itemsRoot, Ty.root,
+    Ty.wrap, Except.map]
 
 theorem parse_tuple (P : Parsers) (cv : CV) (t : Text) (hty : cv.ty = .tuple) (hp : cv.parser = none) :
     parse src P cv t = .ok (.tuple ((split src.listSep t).map (applyOps src.listItemNorm))) := by
-  simp [parse, src, Gen.C20.parseOrder, parseBranches, Ty.passes, hp, hty, runBranch]
+  simp [parse, src, Gen.C20.parseTests, parseBranches, Ty.passes, Ty.exact, Ty.supers, hp, hty, runBranch, itemsRoot, Ty.root,
+    Ty.wrap, Except.map]
 
 theorem parse_int (P : Parsers) (cv : CV) (t : Text) (hty : cv.ty = .int) (hp : cv.parser = none) :
     parse src P cv t = match pyInt t with | some n => .ok (.int n) | none => .error .valueError := by
-  simp only [parse, src, Gen.C20.parseOrder, parseBranches, Ty.passes, hp, hty, construct]
-  cases pyInt t <;> simp
+  simp only [parse, src, Gen.C20.parseTests, parseBranches, Ty.passes, Ty.exact, Ty.supers, hp, hty, construct, constructRoot,
+    Ty.root]
+  cases pyInt t <;> simp [Except.map, Ty.wrap]
 
 theorem parse_other (P : Parsers) (cv : CV) (t : Text) {k : Nat} (hty : cv.ty = .other k) (hp : cv.parser = none) :
     parse src P cv t = .ok (.sym k t) := by
-  simp [parse, src, Gen.C20.parseOrder, parseBranches, Ty.passes, hp, hty, construct]
+  simp [parse, src, Gen.C20.parseTests, parseBranches, Ty.passes, Ty.exact, Ty.supers, hp, hty, construct, constructRoot,
+    Ty.root, Ty.wrap, Except.map]
+
+/-! ### the type lattice: well-formed types, what their subclasses inherit -/
+
+/-- classes python lets one derive from (in the model): everything but `bool` (final), enum classes with members (final)
+and the `NamedTuple` classes -/
+def Ty.subclassable : Ty → Bool
+  | .bool => false
+  | .enum _ _ => false
+  | .ntuple _ => false
+  | _ => true
+
+/-- well-formed types: `sub` only over subclassable well-formed types -/
+def Ty.wf : Ty → Bool
+  | .sub _ b => b.subclassable && b.wf
+  | _ => true
+
+/-- the built-in types a chain of user-defined subclasses can start from -/
+def Ty.isBase : Ty → Bool
+  | .path | .str | .int | .dict | .list | .tuple | .other _ => true
+  | _ => false
+
+theorem root_of_subclassable : ∀ (b : Ty), b.subclassable = true → b.wf = true →
+    b.root.isBase = true ∧ b.supers = b.root.supers ∧ b.root.root = b.root
+  | .bool, h, _ => by cases h
+  | .enum _ _, h, _ => by cases h
+  | .ntuple _, h, _ => by cases h
+  | .path, _, _ => by decide
+  | .str, _, _ => by decide
+  | .int, _, _ => by decide
+  | .dict, _, _ => by decide
+  | .list, _, _ => by decide
+  | .tuple, _, _ => by decide
+  | .other _, _, _ => ⟨rfl, rfl, rfl⟩
+  | .sub _ b, _, hw => by
+    simp only [Ty.wf, Bool.and_eq_true] at hw
+    exact root_of_subclassable b hw.1 hw.2
+
+/-- the `if` cascade of `parse` for a type that IS no dispatch class (`exact = none`): only the subclass tests count -/
+theorem parseBranches_src_of_supers (P : Parsers) (cv : CV) (t : Text) (hp : cv.parser = none) (he : cv.ty.exact = none) :
+    parse src P cv t =
+      if cv.ty.supers.contains .enum then runBranch src P cv t ⟨.enum, .subclass, .std⟩
+      else if cv.ty.supers.contains .str then runBranch src P cv t ⟨.str, .subclass, .selfType⟩
+      else if cv.ty.supers.contains .mapping then runBranch src P cv t ⟨.mapping, .subclass, .std⟩
+      else if cv.ty.supers.contains .iterable then runBranch src P cv t ⟨.iterable, .subclass, .std⟩
+      else construct cv.ty t := by
+  simp only [parse, src, Gen.C20.parseTests, parseBranches, Ty.passes, hp, he, Option.isSome_none]
+  simp
 
 /-! ### stripping a text with a non-blank character in the middle (`key = value`) -/
 
@@ -641,12 +709,40 @@ theorem pyInt_none_of_bad_char {t : Text} {c : Char} (hc : c ∈ stripBy isNumSp
 /-- the attempt by number of the enum branch fails for this text (not an integer, or no member has that value) -/
 def NumberMiss (ms : List (Text × Int)) (t : Text) : Prop := ∀ n, pyInt t = some n → hasValue n ms = false
 
-theorem enumAttempt_number_miss {ms : List (Text × Int)} {t : Text} (h : NumberMiss ms t) :
-    enumAttempt ms t .byNumber = .error .valueError := by
+theorem enumAttempt_number_miss {mix : Mix} {ms : List (Text × Int)} {t : Text} (hf : ∀ k, mix ≠ .flag k)
+    (h : NumberMiss ms t) : enumAttempt mix ms t .byNumber = .error .valueError := by
   simp only [enumAttempt]
   cases hp : pyInt t with
   | none => rfl
-  | some n => simp [h n hp]
+  | some n =>
+    simp only [h n hp, Bool.and_false]
+    cases mix with
+    | flag k => exact absurd rfl (hf k)
+    | _ => rfl
+
+/-- for an enum whose members are texts (`str` mix-in) the attempt by number always fails -/
+theorem enumAttempt_number_str {ms : List (Text × Int)} {t : Text} :
+    enumAttempt .str ms t .byNumber = .error .valueError := by
+  simp only [enumAttempt, Mix.byNumber, Bool.false_and]
+  cases pyInt t <;> rfl
+
+/-- the attempt by number fails for this text, by kind of enum: members that are texts (`str` mix-in) have no numbers; an
+`IntFlag` accepts every number (so the text must be no number at all); otherwise no member has that value -/
+def NumberMissFor (mix : Mix) (ms : List (Text × Int)) (t : Text) : Prop :=
+  match mix with
+  | .str => True
+  | .flag _ => pyInt t = none
+  | _ => NumberMiss ms t
+
+theorem enumAttempt_number_missFor {mix : Mix} {ms : List (Text × Int)} {t : Text} (h : NumberMissFor mix ms t) :
+    enumAttempt mix ms t .byNumber = .error .valueError := by
+  cases mix with
+  | str => exact enumAttempt_number_str
+  | flag k =>
+    have h : pyInt t = none := h
+    simp [enumAttempt, h]
+  | plain => exact enumAttempt_number_miss (by intro k hk; cases hk) h
+  | int => exact enumAttempt_number_miss (by intro k hk; cases hk) h
 
 /-- a text with blanks around a trimmed, separator-free core -/
 structure Padded where
@@ -695,10 +791,20 @@ theorem startsWith_us_false (n : Text) : startsWith ['_'] n = false ↔ n.head? 
 theorem isConfigName_iff (n : Text) : isConfigName src n = true ↔ PublicUpper n := by
   simp [isConfigName, src, Gen.C20.nameTests, nameTest, pyIsUpper_iff, PublicUpper, startsWith_us_false]
 
+/-- the prefix a descriptor ends up with: the one given, else the module path of the owner (upper case, dots as underscores) -/
+def prefixOr (pre m : Text) : Text := if pre ≠ [] then pre else modulePrefix m
+
+theorem applyOps_modulePrefixNorm (m : Text) : applyOps src.modulePrefixNorm m = modulePrefix m := rfl
+
+theorem declare_src (a : InitArgs) (c : Nat) (n m : Text) :
+    declare src a c n m = ⟨c, n, a.default, a.ty, a.parser, a.envVar, prefixOr a.envPrefix m, m⟩ := by
+  simp [declare, setName, init, src, Gen.C20.initStores, Gen.C20.setNameStores, Gen.C20.prefixFallback, prefixOr,
+    Gen.C20.modulePrefixNorm, applyOps, applyOp, modulePrefix]
+
 theorem decorate1_some {c : Nat} {pre m : Text} {a : Attr} (h : isConfigName src a.name = true) :
-    decorate1 src c pre m a = some ⟨c, a.name, a.default, a.ty, a.parser, a.envOverride, pre, m⟩ := by
+    decorate1 src c pre m a = some ⟨c, a.name, a.default, a.ty, a.parser, a.envOverride, prefixOr pre m, m⟩ := by
   unfold decorate1
-  rw [if_pos h]
+  rw [if_pos h, declare_src]
   simp [src, Gen.C20.wrappedKeeps]
 
 theorem decorate1_none {c : Nat} {pre m : Text} {a : Attr} (h : isConfigName src a.name = false) :
